@@ -44,9 +44,9 @@ pub const ODD_POLICIES: &[&str] = &[
 
 pub const SCHEMA_VARIANT: &str = r#"
 entity Group in [Group];
-entity User in [Group] = { level: Long, active: Bool, manager?: User, friends: Set<User>, home?: Folder };
+entity User in [Group] = { level: Long, active: Bool, manager?: User, friends: Set<User>, home?: Folder, profile: { dept: String, boss?: User, ip: ipaddr } };
 entity Folder in [Folder] = { admin?: User, depth: Long };
-entity Doc in [Folder] = { owner: User, readers: Set<User>, parent?: Doc, public: Bool, team?: Group } tags String;
+entity Doc in [Folder] = { owner: User, readers: Set<User>, parent?: Doc, public: Bool, team?: Group, score: decimal, meta?: { reviewers: Set<User>, lead?: User } } tags String;
 action anyop;
 action readonly in [anyop];
 action view in [readonly] appliesTo { principal: [User], resource: [Doc], context: { via?: User, n: Long, docs?: Set<Doc> } };
